@@ -198,7 +198,7 @@ Definition export (k : key) : list packet :=
 Inductive result (A : Type) :=
 | Ok (a : A)
 | ErrLeadingSignature      (* first packet is a signature: grouping key None -> AttributeError *)
-| ErrNoPrimary             (* subkey or user id before any primary key: next(reversed(keys)) -> StopIteration *)
+| ErrNoPrimary             (* subkey or user id before any primary key: `None |= obj` -> TypeError (StopIteration before 84a9ce0) *)
 | ErrTypeError.            (* public subkey under a private key or the converse *)
 Arguments Ok {A} a.  Arguments ErrLeadingSignature {A}.  Arguments ErrNoPrimary {A}.  Arguments ErrTypeError {A}.
 
@@ -226,7 +226,35 @@ Fixpoint keys_set (k : key) (l : list key) : list key :=
   | x :: r => if (p_label x =? p_label k) && Bool.eqb (p_public x) (p_public k) then k :: r else x :: keys_set k r
   end.
 
-(* keys[next(reversed(keys))] |= obj *)
+(* `primary |= obj`: parse keeps the most recently PARSED primary key in a local variable (repair 84a9ce0); that object
+   is always the dictionary entry of its (keyid, is_public), so it is addressed by that pair here.
+   No primary key yet: `None |= obj` -> TypeError (ErrNoPrimary). *)
+Definition same_id (id : Z * bool) (k : key) : bool := (p_label k =? fst id) && Bool.eqb (p_public k) (snd id).
+Fixpoint upd_key (id : Z * bool) (f : key -> result key) (l : list key) : result (list key) :=
+  match l with
+  | [] => ErrNoPrimary
+  | x :: r =>
+    if same_id id x then
+      match f x with
+      | Ok x' => Ok (x' :: r)
+      | ErrLeadingSignature => ErrLeadingSignature
+      | ErrNoPrimary => ErrNoPrimary
+      | ErrTypeError => ErrTypeError
+      end
+    else
+      match upd_key id f r with
+      | Ok r' => Ok (x :: r')
+      | e => e
+      end
+  end.
+Definition upd_cur (cur : option (Z * bool)) (f : key -> result key) (l : list key) : result (list key) :=
+  match cur with
+  | None => ErrNoPrimary
+  | Some id => upd_key id f l
+  end.
+
+(* before that repair: keys[next(reversed(keys))] |= obj - the LAST dictionary entry, which is not the key just parsed
+   when a blob repeats a key (an existing dictionary key keeps its position); empty dictionary -> StopIteration *)
 Definition upd_last (f : key -> result key) (l : list key) : result (list key) :=
   match rev l with
   | [] => ErrNoPrimary
@@ -244,47 +272,64 @@ Section Import.
   Variable uos : uid -> sig -> uid.
   Variable kou : key -> uid -> key.
   Variable psig : sig -> sig.            (* what parsing does to a signature packet (identity today) *)
+  (* how a user id / subkey finds its key: current primary (now) or last dictionary entry (before 84a9ce0) *)
+  Variable attach : option (Z * bool) -> (key -> result key) -> list key -> result (list key).
 
-  Definition import_group (ks : list key) (g : packet * list packet) : result (list key) :=
+  (* state: the `keys` dictionary and the (keyid, is_public) of the local variable `primary` *)
+  Definition import_group (st : list key * option (Z * bool)) (g : packet * list packet) : result (list key * option (Z * bool)) :=
+    let (ks, cur) := st in
     let (h, ss) := g in
     let sl := map psig (sigs_of ss) in
+    let keep (r : result (list key)) : result (list key * option (Z * bool)) :=
+      match r with
+      | Ok ks' => Ok (ks', cur)
+      | ErrLeadingSignature => ErrLeadingSignature
+      | ErrNoPrimary => ErrNoPrimary
+      | ErrTypeError => ErrTypeError
+      end in
     match h with
-    | POpaque _ _ => Ok ks                     (* `if not _.endswith('Opaque')` *)
+    | POpaque _ _ => Ok st                     (* `if not _.endswith('Opaque')` *)
     | PKey prim pub cs l =>
       let its := fold_left kos sl [] in
-      if prim then Ok (keys_set {| p_label := l; p_public := pub; p_sigs := its; p_uids := []; p_subs := [] |} ks)
-      else upd_last (fun K => match key_or_sub K {| sk_label := l; sk_public := pub; sk_cansign := cs; sk_sigs := its |} with
-                              | Some K' => Ok K' | None => ErrTypeError end) ks
+      if prim then Ok (keys_set {| p_label := l; p_public := pub; p_sigs := its; p_uids := []; p_subs := [] |} ks, Some (l, pub))
+      else keep (attach cur (fun K => match key_or_sub K {| sk_label := l; sk_public := pub; sk_cansign := cs; sk_sigs := its |} with
+                                      | Some K' => Ok K' | None => ErrTypeError end) ks)
     | PUid isu c =>
       let u := fold_left uos sl {| u_isuid := isu; u_content := c; u_sigs := [] |} in
-      upd_last (fun K => Ok (kou K u)) ks
-    | PSig _ | PTrust => Ok ks                 (* never the head of a group *)
+      keep (attach cur (fun K => Ok (kou K u)) ks)
+    | PSig _ | PTrust => Ok st                 (* never the head of a group *)
     end.
 
-  Fixpoint import_groups (gs : list (packet * list packet)) (ks : list key) : result (list key) :=
+  Fixpoint import_groups (gs : list (packet * list packet)) (st : list key * option (Z * bool)) : result (list key) :=
     match gs with
-    | [] => Ok ks
-    | g :: r => match import_group ks g with
-                | Ok ks' => import_groups r ks'
-                | e => e
+    | [] => Ok (fst st)
+    | g :: r => match import_group st g with
+                | Ok st' => import_groups r st'
+                | ErrLeadingSignature => ErrLeadingSignature
+                | ErrNoPrimary => ErrNoPrimary
+                | ErrTypeError => ErrTypeError
                 end
     end.
 
   Definition import_with (ps : list packet) : result (list key) :=
     let (lead, gs) := groups (filter not_trust ps) in
     match lead with
-    | [] => import_groups gs []
+    | [] => import_groups gs ([], None)
     | _ :: _ => ErrLeadingSignature
     end.
 End Import.
 
 (* PGPKey.parse as it is now; the returned list is the `keys` dictionary in order (its first element is the
    object from_blob returns as the key) *)
-Definition import : list packet -> result (list key) := import_with key_or_sig uid_or_sig key_or_uid (fun s => s).
+Definition import : list packet -> result (list key) := import_with key_or_sig uid_or_sig key_or_uid (fun s => s) upd_cur.
+
+(* before repair 84a9ce0 *)
+Definition import_prefix_dup : list packet -> result (list key) :=
+  import_with key_or_sig uid_or_sig key_or_uid (fun s => s) (fun _ => upd_last).
 
 (* before the F9 repair *)
 Definition import_prefix_f9 : list packet -> result (list key) :=
-  import_with key_or_sig_prefix uid_or_sig_prefix key_or_uid_prefix (fun s => s).
+  import_with key_or_sig_prefix uid_or_sig_prefix key_or_uid_prefix (fun s => s) upd_cur.
 
 (* before the F2 repair: a parsed Boolean subpacket lost its value (an explicit exportable=True read back as False) *)
 Definition psig_prefix_f2 (s : sig) : sig :=
@@ -294,7 +339,7 @@ Definition psig_prefix_f2 (s : sig) : sig :=
                   c_primary := c_primary c; c_info := c_info c; c_signer := c_signer c; c_digest := c_digest c |};
      s_emb := s_emb s |}.
 Definition import_prefix_f2 : list packet -> result (list key) :=
-  import_with key_or_sig uid_or_sig key_or_uid psig_prefix_f2.
+  import_with key_or_sig uid_or_sig key_or_uid psig_prefix_f2 upd_cur.
 
 (* ---------- copy, public twin, and what both have in common ---------- *)
 (* PGPUID.__copy__ *)
